@@ -958,7 +958,7 @@ class ProgramGen:
             (4, self.s_callstat), (3, self.s_closure_loop), (4, self.s_seq), (4, self.s_rec), (3, self.s_obj),
             (4, self.s_meta), (5, self.s_pcall), (2, self.s_goto), (4, self.s_varargs), (2, self.s_tailrec),
             (2, self.s_multi), (2, self.s_break), (2, self.s_forfloat), (2, self.s_xpcall), (2, self.s_method_str),
-            (2, self.s_iter_closure), (2, self.s_const), (1, self.s_return_early), (4, self.s_close), (5, self.s_co), (4, self.s_assign_alias), (4, self.s_jump_fresh), (4, self.s_forin_false), (5, self.s_excess), (2, self.s_longstr),
+            (2, self.s_iter_closure), (2, self.s_const), (1, self.s_return_early), (4, self.s_close), (5, self.s_co), (4, self.s_assign_alias), (4, self.s_jump_fresh), (4, self.s_forin_false), (5, self.s_excess), (2, self.s_longstr), (5, self.s_meta_chain), (6, self.s_builtin_few), (3, self.s_goto_capture_late),
         ]
         tot = sum(w for w, _ in table)
         x = r.below(tot)
@@ -2008,6 +2008,137 @@ class ProgramGen:
         x = self.fresh("v")
         self.declare(V(x, "str", mutable=False))
         return [Local([x], [Str(b)]), self.emit_stat([Var(x), Un("len", Var(x)), Meth(Var(x), "byte", Int(1), Int(-1))])]
+
+
+    def s_meta_chain(self):
+        """__index / __newindex chains of mixed table and function links (depth 2-4); the
+        function handlers report which table they were invoked for (manual 2.4: the lookup
+        is repeated on the handler table, so a function handler found in the metatable of a
+        table further up the chain receives THAT table, not the value indexed originally)"""
+        r = self.rng
+        if not self.pf["meta"] or self.pure or self.fn_level > 0 or self.block_depth > 2:
+            return None
+        em = lambda *a: self.emit_stat(list(a))
+        depth = 1 + r.below(3)
+        kind = r.below(4)
+        self.feat("meta-chain:%s:%d" % (["index-fn", "newindex-fn", "index-table-end", "index-nontable"][kind], depth))
+        names = [self.fresh("L") for _ in range(depth + 1)]      # names[0] = object, names[i] = link i
+        out = []
+        # the last link
+        last = names[-1]
+        ev = "__newindex" if kind == 1 else "__index"
+        out.append(Local([last], [Tab(FNamed("tag", Int(depth)), FNamed("deep", Str("deep-value")))]))
+        if kind == 0:
+            h = Fn(["recv", "key"], False, [em(Str("index-handler"), Fld(Var("recv"), "tag"), Var("key"), Bin("eq", Var("recv"), Var(last))),
+                                            Return(Bin("concat", Var("key"), Str("@")), Int(2))])
+            out.append(SCall(Call(Var("setmetatable"), Var(last), Tab(FNamed("__index", h)))))
+        elif kind == 1:
+            h = Fn(["recv", "key", "val"], False, [em(Str("newindex-handler"), Call(Var("rawget"), Var("recv"), Str("tag")), Var("key"), Var("val"), Bin("eq", Var("recv"), Var(last))),
+                                                   SCall(Call(Var("rawset"), Var("recv"), Var("key"), Var("val")))])
+            out.append(SCall(Call(Var("setmetatable"), Var(last), Tab(FNamed("__newindex", h)))))
+        elif kind == 3:
+            # a metavalue that is neither table nor function is indexed (strings have a metatable)
+            out.append(SCall(Call(Var("setmetatable"), Var(last), Tab(FNamed("__index", Str("abc"))))))
+        # intermediate table links, innermost first
+        for i in range(depth - 1, -1, -1):
+            fields = [FNamed("tag", Int(i))] + ([FNamed("lvl%d" % i, Int(10 * i))] if i > 0 else [])
+            out.append(Local([names[i]], [Call(Var("setmetatable"), Tab(*fields), Tab(FNamed(ev, Var(names[i + 1]))))]))
+        o = names[0]
+        if kind == 1:
+            out += [Assign([Fld(Var(o), "newkey")], [self.exp("int", 1, False, True)]),
+                    em(Call(Var("rawget"), Var(o), Str("newkey")), Call(Var("rawget"), Var(last), Str("newkey"))),
+                    Assign([Fld(Var(o), "tag")], [Int(99)]), em(Call(Var("rawget"), Var(o), Str("tag")), Call(Var("rawget"), Var(last), Str("tag")))]
+        elif kind == 3:
+            out += [em(Fld(Var(o), "deep"), Fld(Var(o), "tag")), em(Call(Var("type"), Fld(Var(o), "len")), Bin("eq", Fld(Var(o), "rep"), Fld(Var("string"), "rep")))]
+        else:
+            out += [em(Fld(Var(o), "deep"), Fld(Var(o), "tag")), em(Fld(Var(o), "missing")),
+                    em(Ix(Var(o), Int(1)), Fld(Var(o), "lvl1"))]
+            if kind == 0:
+                out.append(em(Meth(Var(o), "sub", Int(1)) if False else Call(Var("rawget"), Var(o), Str("missing"))))
+        return out
+
+    def none_fn(self):
+        """(name, statements): a function returning no values / a vararg pass-through"""
+        f = self.fresh("nv")
+        return f, [LocalFn(f, Fn([], True, [Return(Dots())]))]
+
+    def s_builtin_few(self):
+        """library functions with fixed parameters called with a last argument that is a
+        multi-value expression producing no or few values: the call sees exactly the values
+        delivered (manual 3.4.10/3.4.12), so a missing mandatory argument is an error and a
+        missing optional one takes its default"""
+        r = self.rng
+        if self.pure or self.block_depth > 3:
+            return None
+        f, pre = self.none_fn()
+        em = lambda *a: self.emit_stat(list(a))
+        P = lambda *a: Call(Var("pcall"), *a)
+        none = Call(Var(f))
+        one = lambda e: Call(Var(f), e)
+        t = self.fresh("t")
+        cands = [
+            ("type", [P(Var("type"), none), P(Var("type"), one(Int(1))), P(Var("type"), one(Nil()))]),
+            ("tonumber", [P(Var("tonumber"), Str("10"), none), P(Var("tonumber"), none), P(Var("tonumber"), one(Str("0x10")))]),
+            ("rawequal", [P(Var("rawequal"), Int(1), none), P(Var("rawequal"), one(Int(1))), P(Var("rawequal"), Call(Var(f), Int(1), Int(1)))]),
+            ("rawget", [P(Var("rawget"), Tab(FPos(Int(5))), none), P(Var("rawget"), Tab(FPos(Int(5))), one(Int(1)))]),
+            ("rawlen", [P(Var("rawlen"), none), P(Var("rawlen"), one(Str("abc")))]),
+            ("select", [P(Var("select"), none), P(Var("select"), Str("#"), none), P(Var("select"), Int(1), none), P(Var("select"), one(Int(-1)))]),
+            ("setmetatable", [P(Var("setmetatable"), Tab(), none), Call(Var("type"), Call(Var("setmetatable"), Tab(), one(Nil())))]),
+            ("getmetatable", [P(Var("getmetatable"), none), P(Var("getmetatable"), one(Int(1)))]),
+            ("next", [P(Var("next"), Tab(), none), P(Var("next"), none)]),
+            ("math.type", [P(Fld(Var("math"), "type"), none), P(Fld(Var("math"), "type"), one(Int(1)))]),
+            ("math.tointeger", [P(Fld(Var("math"), "tointeger"), none), P(Fld(Var("math"), "tointeger"), one(Flt(3.0)))]),
+            ("string.rep", [P(Fld(Var("string"), "rep"), Str("ab"), none), P(Fld(Var("string"), "rep"), Str("ab"), one(Int(2)))]),
+            ("string.sub", [P(Fld(Var("string"), "sub"), Str("abcdef"), none), P(Fld(Var("string"), "sub"), Str("abcdef"), Int(2), none), P(Fld(Var("string"), "sub"), Str("abcdef"), Call(Var(f), Int(2), Int(3)))]),
+            ("string.len", [P(Fld(Var("string"), "len"), none)]),
+            ("string.byte", [P(Fld(Var("string"), "byte"), Str("A"), none), P(Fld(Var("string"), "byte"), none)]),
+            ("tostring", [P(Var("tostring"), none), P(Var("tostring"), one(Int(7)))]),
+            ("ipairs", [P(Var("ipairs"), none)]),
+            ("assert", [P(Var("assert"), none), P(Var("assert"), one(Int(1)))]),
+            ("error", [P(Var("error"), none), P(Var("error"), Tab(), none)]),
+            ("pcall", [P(Var("pcall"), none), P(Var("pcall"), Var("pcall"), none)]),
+            ("table.insert", [P(Fld(Var("table"), "insert"), Tab(), none)]),
+            ("table.unpack", [P(Fld(Var("table"), "unpack"), Tab(FPos(Int(1)), FPos(Int(2))), none)]),
+            ("table.concat", [P(Fld(Var("table"), "concat"), Tab(FPos(Str("a")), FPos(Str("b"))), none)]),
+            ("rawset", [P(Var("rawset"), Tab(), Int(1), none)]),
+            ("dots", None),
+        ]
+        name, calls = r.choice(cands)
+        self.feat("builtin-few-args:" + name)
+        if calls is None:
+            # the same through `...` of a vararg function called with 0, 1 or 2 values
+            g = self.fresh("va")
+            body = [em(Str("va"), P(Var("type"), Dots())), em(P(Var("rawequal"), Dots())), em(P(Var("rawlen"), Dots())),
+                    em(P(Fld(Var("string"), "rep"), Str("x"), Dots()))]
+            return [LocalFn(g, Fn([], True, body)), SCall(Call(Var(g))), SCall(Call(Var(g), Int(2))), SCall(Call(Var(g), Int(2), Str("s")))]
+        return pre + [em(Str(name), c) for c in calls]
+
+    def s_goto_capture_late(self):
+        """a closure that captures a block local only AFTER a jump out of the block was already
+        met in the source (it is reached first through a backward goto): every iteration still
+        has its own variable"""
+        r = self.rng
+        if self.pure or self.block_depth > 1 or self.fn_level > 0 or not self.pf["goto"]:
+            return None
+        k = r.below(3)
+        self.feat("goto-capture-late:%d" % k)
+        fns, j, x, first = self.fresh("fns"), self.fresh("j"), self.fresh("x"), self.fresh("fst")
+        self.nlabel += 1
+        lab = "T%d" % self.nlabel
+        em = lambda *a: self.emit_stat(list(a))
+        n = 2 + r.below(2)
+        cap = Fn([], False, [Assign([Var(x)], [Bin("add", Var(x), Int(1))]), Return(Var(x))])
+        inner = [Local([x], [Bin("mul", Var(j), Int(10))]), Local([first], [TrueE()]), Label(lab),
+                 If([(Un("not", Var(first)), [Break()])], None), Assign([Var(first)], [FalseE()]),
+                 Assign([Ix(Var(fns), Var(j))], [cap]), Goto(lab)]
+        if k == 0:
+            loop = For(j, Int(1), Int(n), None, [While(TrueE(), inner)])
+        elif k == 1:
+            loop = For(j, Int(1), Int(n), None, [Repeat(inner, FalseE())])
+        else:
+            loop = For(j, Int(1), Int(n), None, [For(self.fresh("q"), Int(1), Int(1), None, inner)])
+        q = self.fresh("q")
+        return [Local([fns], [Tab()]), loop, For(q, Int(1), Int(n), None, [em(Call(Ix(Var(fns), Var(q))), Call(Ix(Var(fns), Var(q))))])]
 
     def s_const(self):
         if self.pf.get("ref53"):
